@@ -256,7 +256,7 @@ def part_klhist(ctx, cuqi, thorough):
     from cuqi.geometry import KLExpansion
     from scipy.fftpack import dst, idst
     rng = np.random.RandomState(ctx.seed + 1314)
-    nh = 60 if not thorough else 600
+    nh = 60 if not thorough else 300
     LMAX = 24
     lines, meta = [], []
     opstat, argforms, cache_events = {}, {}, {"regrid_same_m": 0, "regrid_new_m": 0, "to_none": 0, "from_none": 0}
@@ -405,7 +405,7 @@ def part_klhist(ctx, cuqi, thorough):
 def part_stephist(ctx, cuqi, thorough):
     from cuqi.geometry import StepExpansion
     rng = np.random.RandomState(ctx.seed + 1315)
-    nh = 70 if not thorough else 700
+    nh = 70 if not thorough else 350
     lines, meta = [], []
     opstat, regrid_kinds, ctor, projstat = {}, {}, {"accepted": 0, "refused": 0}, {}
     PROJ = ["mean", "max", "min", "Mean", "MAX", "mIn", "median", "avg"]
